@@ -143,7 +143,7 @@ def gen_case(rng, focus):
         r = rng.random()
         if focus == "refuse":
             pick = rng.choice(["missing_idx", "missing_sub", "wrong_len", "ro_write", "wo_read",
-                               "novalue", "toggle_ul", "toggle_dl", "unknown", "block_dl", "ok_dl",
+                               "novalue", "toggle_ul", "toggle_dl", "repeat_seg", "unknown", "block_dl", "ok_dl",
                                "ok_ul", "var_sub"])
         else:
             pick = rng.choice(["ok_dl", "ok_dl", "ok_ul", "ok_ul", "ok_ul", "garbage", "restart",
@@ -244,6 +244,12 @@ def gen_case(rng, focus):
             data = rand_bytes_for(rng, enc.DOMAIN, rng.randrange(8, 40))
             it = dl_item(rng, idx, sub, data, force_seg=True)
             it["bad_toggle_at"] = rng.randrange(0, 3)
+            script.append(it)
+            script.append({"k": "ul", "idx": idx, "sub": sub})
+        elif pick == "repeat_seg":
+            data = rand_bytes_for(rng, enc.DOMAIN, rng.randrange(15, 40))
+            it = dl_item(rng, idx, sub, data, force_seg=True)
+            it["repeat_at"] = rng.randrange(0, 2)
             script.append(it)
             script.append({"k": "ul", "idx": idx, "sub": sub})
         elif pick == "unknown":
